@@ -355,6 +355,9 @@ def run_case(desc):
 
     if not quiesce.available():
         return {"status": "inconclusive", "detail": "quiescence detector unavailable"}
+    if signal.getsignal(signal.SIGINT) is not signal.default_int_handler:
+        # a check started from a background job inherits SIGINT = ignored; Ctrl-C semantics need CPython's default handler
+        signal.signal(signal.SIGINT, signal.default_int_handler)
     if desc["mode"] == "enter_race":
         return run_enter_race(desc)
     seed = desc["seed"]
